@@ -10,6 +10,10 @@ from typing_extensions import Literal
 
 T = TypeVar("T")
 
+# Private marker merged into the stream when the debounce window closes. It is compared
+# by identity, so no item of the wrapped stream can be mistaken for it.
+_FLUSH: Any = object()
+
 
 async def debounced_sorted_prefix(
     inner: AsyncGenerator[T, None],
@@ -36,23 +40,29 @@ async def debounced_sorted_prefix(
     # testing it here would let an item overtake the still-buffered sorted burst.
     flushed = False
     debouncer = Debouncer(debounce_seconds, max_window_seconds)
-    merged = merge_generators(inner, debouncer.aiter())
+    merged = merge_generators(inner, _flush_marker(debouncer))
 
     async for item in merged:
-        if item == "__COMPLETE__":
+        if item is _FLUSH:
             buffer.sort(key=key)
             for buffered_item in buffer:
                 yield buffered_item
             buffer = []
             flushed = True
         else:
-            # item is T after checking != "__COMPLETE__"
+            # item is T after checking it is not the flush marker
             actual_item = cast(T, item)
             if flushed:
                 yield actual_item
             else:
                 debouncer.extend_window()
                 buffer.append(actual_item)
+
+
+async def _flush_marker(debouncer: "Debouncer") -> AsyncGenerator[Any, None]:
+    """Yield the private flush marker once the debounce window has closed."""
+    await debouncer.wait()
+    yield _FLUSH
 
 
 COMPLETE = Literal["__COMPLETE__"]
